@@ -124,28 +124,60 @@ func codeEq(a, b []Part) (value, bool) {
 			return SymBool{T: fmt.Sprintf("(= %s %s)", x.Lit, intLit(InternLit(y.Lit)))}, true
 		}
 	}
-	// a single user-name atom never equals something that ends in _<digits>
-	for _, pair := range [][2][]Part{{a, b}, {b, a}} {
-		x, y := pair[0], pair[1]
-		if len(x) == 1 && x[0].Kind == PCode && codeClass(x[0].Lit) == 'U' && len(y) > 1 {
-			last := y[len(y)-1]
-			if last.Kind == PLit && digitsSuffixLitRe.MatchString(last.Lit) && strings.HasPrefix(last.Lit, "_") {
+	// Genericity assumption for Int-coded atoms (stated in DESIGN.md §2.2): a
+	// coded name is never a proper fragment of, or a concatenation involving,
+	// other names or literal affixes. Under it two composite ropes are equal
+	// iff their part sequences align: code against code (equal codes), literal
+	// against literal (equal text); a code against literal text, a number or
+	// the end of the other rope is a mismatch. Clashes between a user-chosen
+	// name and a generated composite name are explored with String-sorted
+	// atoms instead (C04's precondition excludes them, C20 targets them).
+	x := append([]Part{}, a...)
+	y := append([]Part{}, b...)
+	var terms []string
+	for len(x) > 0 && len(y) > 0 {
+		p, q := x[0], y[0]
+		switch {
+		case p.Kind == PCode && q.Kind == PCode:
+			if p.Lit != q.Lit {
+				terms = append(terms, fmt.Sprintf("(= %s %s)", p.Lit, q.Lit))
+			}
+			x, y = x[1:], y[1:]
+		case p.Kind == PLit && q.Kind == PLit:
+			n := len(p.Lit)
+			if len(q.Lit) < n {
+				n = len(q.Lit)
+			}
+			if p.Lit[:n] != q.Lit[:n] {
 				return false, true
 			}
-			if last.Kind == PLit && digitsSuffixLitRe.MatchString(last.Lit) && len(y) >= 2 {
-				return false, true
+			if n == len(p.Lit) {
+				x = x[1:]
+			} else {
+				x[0] = Part{Kind: PLit, Lit: p.Lit[n:]}
 			}
-		}
-		// an identifier never contains characters outside the identifier alphabet
-		if len(x) == 1 && x[0].Kind == PCode {
-			for _, p := range y {
-				if p.Kind == PLit && !identBodyRe.MatchString(p.Lit) {
-					return false, true
-				}
+			if n == len(q.Lit) {
+				y = y[1:]
+			} else {
+				y[0] = Part{Kind: PLit, Lit: q.Lit[n:]}
 			}
+		case p.Kind == PAtom || q.Kind == PAtom:
+			panic(Inconclusive{"word equation mixing Int-coded and String atoms: " + describeParts(a) + " =? " + describeParts(b)})
+		default:
+			return false, true
 		}
 	}
-	panic(Inconclusive{"word equation over Int-coded atoms: " + describeParts(a) + " =? " + describeParts(b)})
+	for _, rest := range [][]Part{x, y} {
+		for _, p := range rest {
+			if p.Kind == PAtom {
+				panic(Inconclusive{"word equation mixing Int-coded and String atoms: " + describeParts(a) + " =? " + describeParts(b)})
+			}
+		}
+		if len(rest) > 0 {
+			return false, true
+		}
+	}
+	return mkBool(andTerm(terms...)), true
 }
 
 var identBodyRe = regexp.MustCompile(`^[A-Za-z0-9_]*$`)
